@@ -20,7 +20,7 @@ RULE = ("fake ACN-Data server holding 0-250 documents (unique _id, RFC-1123 stri
         "get_sessions_by_time (the server parses the where clause back and filters); host TZ varied; non-trivial = >=3 pages "
         "with >=1 empty page, or a document in a DST-transition hour; distinct = (page plan shape, args, fault, TZ)")
 PROBES = ["empty_page_middle", "empty_page_end", "zero_documents", "three_plus_pages", "dst_transition_doc", "timeseries_doc",
-          "by_time_query", "page_chain_over_1000", "stale_meta_total", "fault:not_json", "fault:error_doc", "fault:connection", "invalid_site", "host_tz_non_utc",
+          "by_time_query", "page_chain_over_1000", "stale_meta_total", "equal_documents_query", "non_canonical_date_spelling", "fault:not_json", "fault:error_doc", "fault:connection", "invalid_site", "host_tz_non_utc",
           "roundtrip_checked", "timeseries_spans_dst", "concurrent_generators", "interleaved_switches", "underscore_date_field",
           "new_year_query_bound", "prelude_query_on_same_client"]
 FAULT_DIMENSION = "interleaving of up to three generators of one client (seeded scheduler decides who advances); server-side faults at page k: non-JSON body, error document without _items, transport ConnectionError (client has no retry: must raise, never end silently)"
@@ -54,6 +54,9 @@ def gen(rs, tier):
              "doneChargingTime": (e + r.randint(0, dur)) if r.random() < 0.7 else None, "kWhDelivered": round(r.uniform(0.1, 60), 3),
              "sessionID": "sess_%d" % i, "spaceID": "CA-%d" % r.randint(300, 330), "timezone": r.choice(ZONES),
              "note": r.choice(["plain text", "Mon, not a date", "", "Tue, 99 Foo 2019 00:00:00 GMT"])}
+        sp_ = sub(rs, "spelling", i).random()
+        if sp_ < 0.12:
+            d["_spelling"] = ["unpadded_day", "unpadded_hour", "double_space", "lower_gmt"][int(sp_ / 0.03)]
         if r.random() < 0.5:      # the API's own bookkeeping dates are RFC-1123 fields too
             d["_created"] = e + dur + r.randint(0, 86400)
             d["_updated"] = d["_created"] + r.randint(0, 86400)
@@ -121,14 +124,32 @@ def gen(rs, tier):
         args = {"site": args["site"] if args["site"] in ("caltech", "jpl", "office001") else "caltech", "timeseries": False}
     return {"seed": rs, "docs": docs, "pages": pages, "mode": mode, "args": args, "fault": fault, "extra_queries": extra, "prelude": prelude,
             "stale_total": sub(rs, "stale_total").choice([0, 0, 0, 0, 1, 3, 50]),
+            "equal_docs": (lambda q_: {"values": sorted(q_.choice([1.5, 2.0, 2.0, 7.25]) for _ in range(q_.randint(2, 12))),
+                                       "pages": [q_.choice([1, 1, 2, 3]) for _ in range(q_.randint(1, 6))]} if q_.random() < 0.08 else None)(sub(rs, "equal_docs")),
             "host_tz": r.choice(HOST_TZ), "roundtrip": [(r.choice(DST_EPOCHS + [base]) + r.randint(-7200, 7200), r.choice(ZONES)) for _ in range(3)]}
+
+
+def respell(s_, variant):
+    """Other spellings of the same RFC-1123 / RFC-822 date that servers and proxies emit (all accepted by the stock parser)."""
+    if variant == "unpadded_day":
+        return s_[:5] + s_[5:].lstrip("0") if s_[5] == "0" else s_
+    if variant == "unpadded_hour":
+        i_ = len(s_) - 12
+        return s_[:i_] + s_[i_ + 1:] if s_[i_] == "0" else s_
+    if variant == "double_space":
+        return s_.replace(" ", "  ", 1)
+    if variant == "lower_gmt":
+        return s_[:-3] + "gmt"
+    return s_
 
 
 def serialise(d):
     out = dict(d)
+    variant = d.get("_spelling")
+    out.pop("_spelling", None)
     for k in ("connectionTime", "disconnectTime", "doneChargingTime", "_created", "_updated"):
         if k in d:
-            out[k] = rfc1123(d[k]) if d[k] is not None else None
+            out[k] = respell(rfc1123(d[k]), variant) if d[k] is not None else None
     for k in ("chargingCurrent", "pilotSignal"):
         if k in d:
             out[k] = dict(d[k], timestamps=[rfc1123(x) for x in d[k]["timestamps"]])
@@ -151,6 +172,8 @@ def check(sc):
     if sc["host_tz"] != "UTC":
         out.probe("host_tz_non_utc")
     raw = {d["_id"]: d for d in sc["docs"]}
+    if any(d.get("_spelling") for d in sc["docs"]):
+        out.probe("non_canonical_date_spelling")
     server = FakeServer([serialise(d) for d in sc["docs"]], sc["pages"],
                         faults=({sc["fault"]["at"]: sc["fault"]["kind"]} if sc["fault"] else None))
     server.stale_total = sc.get("stale_total", 0)
@@ -358,6 +381,20 @@ def check(sc):
         else:
             os.environ["TZ"] = old_tz
         time.tzset()
+    if sc.get("equal_docs") and not out.viol:
+        # a projection without '_id': several sessions are represented by equal documents; each is still one session
+        ed = sc["equal_docs"]
+        docs_e = [{"kWhDelivered": float(v_), "timezone": "UTC"} for v_ in ed["values"]]
+        srv_e = FakeServer(docs_e, ed["pages"])
+        dc_mod.requests = srv_e
+        try:
+            got_e = [dict(x_) for x_ in dc_mod.DataClient("tok3n").get_sessions("caltech", project='{"kWhDelivered": 1, "timezone": 1, "_id": 0}', sort="kWhDelivered")]
+        finally:
+            dc_mod.requests = orig
+        out.probe("equal_documents_query")
+        if [x_["kWhDelivered"] for x_ in got_e] != [float(v_) for v_ in ed["values"]]:
+            out.add("C20/yield_sequence", "projection without _id: server holds %d sessions %s, generator yielded %d %s (pages %s)"
+                    % (len(ed["values"]), ed["values"][:12], len(got_e), [x_["kWhDelivered"] for x_ in got_e][:12], ed["pages"]))
     plan = server._plan or []
     out.nontrivial = (len(plan) >= 3 and any(s == 0 for s in plan)) or out.probes.get("dst_transition_doc", 0) > 0
     out.sig = digest((tuple(min(s, 3) for s in plan), sc["mode"], sorted(k for k, v in sc["args"].items() if v), sc["fault"], sc["host_tz"]))
